@@ -24,6 +24,7 @@ import (
 	"io"
 	"net/http"
 	"net/url"
+	"os"
 	"strconv"
 	"strings"
 
@@ -128,6 +129,9 @@ func errTok(err error) string {
 	}
 	switch st.Code() {
 	case codes.InvalidArgument:
+		if os.Getenv("C04_DEBUG") != "" {
+			return "err InvalidArgument:" + strings.ReplaceAll(st.Message(), " ", "_")
+		}
 		return "err InvalidArgument"
 	case codes.Internal:
 		return "err Internal"
@@ -139,7 +143,11 @@ func errTok(err error) string {
 func (c *tcCase) runReal(cfg string) (out string) {
 	defer func() {
 		if r := recover(); r != nil {
-			out = "panic " + common.HexS(fmt.Sprint(r))
+			// the panic text names the run-time package of the configuration: not part of the canonical output
+			out = "panic x"
+			if c.Op == "ts" {
+				out = "1 panic x"
+			}
 		}
 	}()
 	b, err := c.Schema.build(cfg)
@@ -182,13 +190,24 @@ func (c *tcCase) runReal(cfg string) (out string) {
 	}
 	stream := st.Stream(bytes.NewReader(c.Body))
 	var res []string
-	for i := 0; i < c.Calls; i++ {
+	call := func() (r string, stop bool) {
+		defer func() {
+			if p := recover(); p != nil {
+				r, stop = "panic x", true
+			}
+		}()
 		msg := method.Input.New()
 		if err := stream.Transcode(msg); err != nil {
-			res = append(res, errTok(err))
+			return errTok(err), true
+		}
+		return "ok " + msgTok(msg.ProtoReflect()), false
+	}
+	for i := 0; i < c.Calls; i++ {
+		r, stop := call()
+		res = append(res, r)
+		if stop {
 			break
 		}
-		res = append(res, "ok "+msgTok(msg.ProtoReflect()))
 	}
 	return strconv.Itoa(len(res)) + " " + strings.Join(res, " ")
 }
@@ -206,7 +225,12 @@ func (c *tcCase) decOracle() (out string) {
 		return "buildfail"
 	}
 	md := b.Msg(c.Root)
-	one := func(decode func(protoreflect.Message, protoreflect.FieldDescriptor) (bool, error)) string {
+	one := func(decode func(protoreflect.Message, protoreflect.FieldDescriptor) (bool, error)) (res string) {
+		defer func() {
+			if r := recover(); r != nil {
+				res = "panic"
+			}
+		}()
 		if c.BodyPath == "" {
 			return "none"
 		}
